@@ -1114,7 +1114,7 @@ static Outcome run_pool(const Case &c) {
   if (pid < 0) harness_error("fork");
   if (pid == 0) {
     close(p[0]);
-    alarm(20);
+    alarm(120);  // a real hang is a finding; 120 s so that a stalled, overloaded machine is not mistaken for one
     pool_child(c, p[1]);
     _exit(9);
   }
